@@ -220,7 +220,9 @@ def r3_mismatch(repo):
                         ("has_type_variables" in s_ or s_ == "is_type_var") and not pol for s_, pol in gs):
                     cands.append(e2)
             e = cands[0] if cands else None
-            ok = len(cands) == 1
+            # ... and the inequality alone decides: the innermost test around the empty answer is exactly that comparison
+            ok = len(cands) == 1 and isinstance(e._parent, ast.If) and \
+                [(src(t_), p_) for t_, p_ in flatten_guard(e._parent.test, e in e._parent.body)] == [("t_arg1 == t_arg2", False)]
         obs.append(Ob("C10-R3", "mismatch:" + name, _w(f, e), ok,
                       "a structural mismatch (%s) must `return {}`" % name))
     # the ground comparison happens for every argument without type variables
